@@ -49,24 +49,24 @@ func (b trackedBody) Close() error               { atomic.AddInt32(b.closed, 1);
 func c11ChallengeShapes(self *authHostCfg, otherRealm, otherHost string) map[string][]string {
 	good := fmt.Sprintf(`Bearer realm="https://%s/token",service="svc",scope="repository:x:pull"`, self.realmHost())
 	return map[string][]string{
-		"bearer":               {good},
-		"basic":                {`Basic realm="registry"`},
-		"bearer+basic-lines":   {good, `Basic realm="registry"`},
-		"basic+bearer-lines":   {`Basic realm="registry"`, good},
-		"unknown-scheme":       {`Negotiate abcdef`},
-		"unknown+bearer":       {`Negotiate abcdef`, good},
-		"escapes":              {fmt.Sprintf(`Bearer realm="https://%s/to\"ken",service="s\\vc",scope="repository:x:pull"`, self.realmHost())},
-		"missing-realm":        {`Bearer service="svc",scope="repository:x:pull"`},
-		"unterminated-quote":   {fmt.Sprintf(`Bearer realm="https://%s/token`, self.realmHost())},
-		"empty":                {``},
-		"none":                 {},
-		"case-variants":        {fmt.Sprintf(`bEARER REALM="https://%s/token", Service=svc , scope="repository:x:pull"`, self.realmHost())},
-		"unquoted-url":         {fmt.Sprintf(`Bearer realm=https://%s/token`, self.realmHost())},
-		"realm-of-other-host":  {fmt.Sprintf(`Bearer realm="https://%s/token",service="svc",scope="repository:x:pull"`, otherRealm)},
+		"bearer":                  {good},
+		"basic":                   {`Basic realm="registry"`},
+		"bearer+basic-lines":      {good, `Basic realm="registry"`},
+		"basic+bearer-lines":      {`Basic realm="registry"`, good},
+		"unknown-scheme":          {`Negotiate abcdef`},
+		"unknown+bearer":          {`Negotiate abcdef`, good},
+		"escapes":                 {fmt.Sprintf(`Bearer realm="https://%s/to\"ken",service="s\\vc",scope="repository:x:pull"`, self.realmHost())},
+		"missing-realm":           {`Bearer service="svc",scope="repository:x:pull"`},
+		"unterminated-quote":      {fmt.Sprintf(`Bearer realm="https://%s/token`, self.realmHost())},
+		"empty":                   {``},
+		"none":                    {},
+		"case-variants":           {fmt.Sprintf(`bEARER REALM="https://%s/token", Service=svc , scope="repository:x:pull"`, self.realmHost())},
+		"unquoted-url":            {fmt.Sprintf(`Bearer realm=https://%s/token`, self.realmHost())},
+		"realm-of-other-host":     {fmt.Sprintf(`Bearer realm="https://%s/token",service="svc",scope="repository:x:pull"`, otherRealm)},
 		"realm-is-other-registry": {fmt.Sprintf(`Bearer realm="https://%s/v2/token",service="svc"`, otherHost)},
-		"trailing-garbage":     {good + ` ;;;`},
-		"basic-no-params":      {`Basic`},
-		"comma-only":           {`Bearer ,`},
+		"trailing-garbage":        {good + ` ;;;`},
+		"basic-no-params":         {`Basic`},
+		"comma-only":              {`Bearer ,`},
 	}
 }
 
